@@ -13,7 +13,10 @@ func init() {
 		runSched(c, "C03", tier, seed)
 		runC03Cancelled(c, tier, seed)
 	}
-	props["C04"] = func(c *Collector, tier string, seed int64) { runSched(c, "C04", tier, seed) }
+	props["C04"] = func(c *Collector, tier string, seed int64) {
+		runSched(c, "C04", tier, seed)
+		runC04Real(c, tier, seed)
+	}
 }
 
 // all DAGs on n labelled stages whose edges go from lower to higher index (every DAG up to renaming),
